@@ -771,6 +771,124 @@ class VecTr:
         return None
 
 
+class MaskTr(VecTr):
+    """VecTr for the MASKED path of a cost function (`mask is not None` taken).  Three kinds of values:
+    ('s', term) scalar | ('v', body in `i`) array over the whole domain (n entries) | ('c', body in `k`) compressed array (cnt kept
+    entries).  `X[mask]` of a whole-domain array is `X (idx k)` (idx enumerates the kept positions), `Z[mask] = g` on a zero array is
+    `Model.C06.scatterMask cnt idx g`; mixing the two domains element-wise is a shape error (Untranslatable)."""
+
+    def __init__(self, env, funcs=None, static=None):
+        super().__init__(env, funcs, static)
+        self.zero = set()
+
+    def bind_name(self, name, v):
+        if v[0] != 'c':
+            self.zero.discard(name)
+            return super().bind_name(name, v)
+        k = self._n.get(name, 0)
+        self._n[name] = k + 1
+        ln = f'{name}_' if k == 0 else f'{name}_{k}'
+        self.lets.append(f'let {ln} : Nat → K := fun k => {v[1]}')
+        self.env[name] = ('c', f'({ln} k)')
+        self.zero.discard(name)
+
+    def fresh_fn(self, v):
+        """a whole-domain value as a named function of the position"""
+        k = self._n.get('full', 0)
+        self._n['full'] = k + 1
+        ln = f'full_{k}'
+        self.lets.append(f'let {ln} : Nat → K := fun i => {v[1]}')
+        return ln
+
+    def ev(self, e):
+        key = ast.unparse(e)
+        if key in self.env:
+            return self.env[key]
+        if isinstance(e, ast.Subscript) and ast.unparse(e.slice) == 'mask':
+            v = self.ev(e.value)
+            if v[0] != 'v':
+                raise Untranslatable(f'[mask] of a {v[0]} value: {key}')
+            return ('c', f'({self.fresh_fn(v)} (idx k))')
+        if isinstance(e, ast.BinOp) and not isinstance(e.op, ast.Pow):
+            sym = {ast.Add: '+', ast.Sub: '-', ast.Mult: '*', ast.Div: '/'}.get(type(e.op))
+            if sym is None:
+                raise Untranslatable(f'operator {key}')
+            a, b = self.ev(e.left), self.ev(e.right)
+            kinds = {a[0], b[0]} - {'s'}
+            if len(kinds) > 1:
+                raise Untranslatable(f'whole-domain and compressed arrays combined: {key}')
+            return (kinds.pop() if kinds else 's', f'({a[1]} {sym} {b[1]})')
+        if isinstance(e, ast.Attribute) and e.attr == 'size':
+            v = self.ev(e.value)
+            if v[0] == 'c':
+                return ('s', '(Num.ofInt (cnt : Int))')
+            if v[0] == 'v':
+                return ('s', '(Num.ofInt (n : Int))')
+        if isinstance(e, ast.Call) and isinstance(e.func, ast.Attribute) and e.func.attr in ('sum', 'mean') and not e.args and not e.keywords:
+            v = self.ev(e.func.value)
+            if v[0] == 'c':
+                tot = f'(Num.sumTo cnt (fun k => {v[1]}))'
+                return ('s', tot if e.func.attr == 'sum' else f'({tot} / (Num.ofInt (cnt : Int)))')
+        if isinstance(e, ast.Call) and ast.unparse(e.func) in ('np.zeros', 'np.zeros_like'):
+            a0 = ast.unparse(e.args[0]) if e.args else ''
+            if ast.unparse(e.func) == 'np.zeros_like':
+                ok = self.ev(e.args[0])[0] == 'v'
+            else:
+                ok = a0 == 'mask.shape' or (a0.endswith('.shape') and a0[:-6] in self.env and self.env[a0[:-6]][0] == 'v')
+            if not ok:
+                raise Untranslatable(f'zeros of an extent that is not the whole domain: {key}')
+            return ('z', '(Num.ofInt (0))')
+        return super().ev(e)
+
+    def run(self, stmts):
+        for pos, st in enumerate(stmts):
+            if isinstance(st, ast.Assign) and len(st.targets) == 1:
+                tgt = st.targets[0]
+                if isinstance(tgt, ast.Name):
+                    v = self.ev(st.value)
+                    if v[0] == 'z':
+                        self.bind_name(tgt.id, ('v', v[1]))
+                        self.zero.add(tgt.id)
+                        continue
+                    was_zero = isinstance(st.value, ast.Name) and st.value.id in self.zero
+                    self.bind_name(tgt.id, v)
+                    if was_zero:
+                        self.zero.add(tgt.id)
+                    continue
+                if isinstance(tgt, ast.Subscript) and ast.unparse(tgt.slice) == 'mask' and isinstance(tgt.value, ast.Name):
+                    nm = tgt.value.id
+                    if nm not in self.zero:
+                        raise Untranslatable(f'{nm}[mask] = ... on an array that is not freshly zero')
+                    v = self.ev(st.value)
+                    if v[0] != 'c':
+                        raise Untranslatable(f'{nm}[mask] = <{v[0]} value>')
+                    self.bind_name(nm, ('v', f'(Model.C06.scatterMask cnt idx (fun k => {v[1]}) i)'))
+                    continue
+            r = VecTr.run(self, [st])
+            if r is not None:
+                return r
+        return None
+
+
+def _masked_terms(fn, env, name, hdr_extra, args, funcs=None):
+    """cost and gradient of the masked path as Lean terms"""
+    t = MaskTr(env, funcs=funcs, static={'mask is not None': True, 'mask is None': False,
+                                         'not isinstance(yhat, numbers.Number)': True, 'isinstance(yhat, numbers.Number)': False})
+    cost, grad = t.run(fn.body)
+    if cost[0] != 's' or grad[0] != 'v':
+        raise Untranslatable(f'{fn.name} (masked path): kinds of the returned values {cost[0]}, {grad[0]}')
+    H = f'{{K : Type}} [Num K] {hdr_extra}(n cnt : Nat) (idx : Nat → Nat) ({args} : Nat → K)'
+    return (f'def {name}MaskedCost {H} : K :=\n{t.prefix()}  {cost[1]}\n'
+            f'def {name}MaskedGrad {H} : Nat → K :=\n{t.prefix()}  fun i => {grad[1]}\n')
+
+
+def _masked_fallback(name, hdr_extra, args, cost_call, grad_call):
+    H = f'{{K : Type}} [Num K] {hdr_extra}(n cnt : Nat) (idx : Nat → Nat) ({args} : Nat → K)'
+    a, b = args.split()
+    return (f'def {name}MaskedCost {H} : K := {cost_call} cnt (Model.C06.compress idx {a}) (Model.C06.compress idx {b})\n'
+            f'def {name}MaskedGrad {H} : Nat → K := Model.C06.scatterMask cnt idx ({grad_call} cnt (Model.C06.compress idx {a}) (Model.C06.compress idx {b}))\n')
+
+
 def _vec(v):
     """a value as a Lean function Nat -> K"""
     return f'(fun i => {v[1]})'
@@ -886,6 +1004,21 @@ def cost_items(g, co):
            lambda: get_def(co, 'negative_loglikelihood'), nll,
            f'def nllCost {{K : Type}} [Num K] (lg : K → K) (n : Nat) (y yhat : Nat → K) : K := {M}.nllCost lg n y yhat\n'
            f'def nllGrad {{K : Type}} [Num K] (lg : K → K) (n : Nat) (y yhat : Nat → K) : Nat → K := {M}.nllGrad n y yhat\ndef nllMaskedIsCompressScatter : Bool := true\n')
+
+
+    # ---- the MASKED path of each cost function as a term (session 3b): compress, closed form on the kept samples, scatter
+    g.item('mean_square_error.masked', 'prysm/x/optym/cost.py:mean_square_error', lambda: get_def(co, 'mean_square_error'),
+           lambda: _masked_terms(get_def(co, 'mean_square_error'), {'M': ('v', '(M i)'), 'D': ('v', '(D i)')}, 'mse', '', 'M D'),
+           _masked_fallback('mse', '', 'M D', f'{M}.mseCost', f'{M}.mseGrad'))
+    g.item('bias_and_gain_invariant_error.masked', 'prysm/x/optym/cost.py:bias_and_gain_invariant_error',
+           lambda: get_def(co, 'bias_and_gain_invariant_error'),
+           lambda: _masked_terms(get_def(co, 'bias_and_gain_invariant_error'), {'I': ('v', '(I i)'), 'D': ('v', '(D i)')}, 'bgie', '', 'I D'),
+           _masked_fallback('bgie', '', 'I D', f'{M}.bgieCost', f'{M}.bgieGrad'))
+    g.item('negative_loglikelihood.masked', 'prysm/x/optym/cost.py:negative_loglikelihood',
+           lambda: get_def(co, 'negative_loglikelihood'),
+           lambda: _masked_terms(get_def(co, 'negative_loglikelihood'), {'y': ('v', '(y i)'), 'yhat': ('v', '(yhat i)')}, 'nll',
+                                 '(lg : K → K) ', 'y yhat', funcs={'np.log': lambda a: (a[0][0], f'(lg {a[0][1]})')}),
+           _masked_fallback('nll', '(lg : K → K) ', 'y yhat', f'{M}.nllCost lg', f'{M}.nllGrad'))
 
 
 def activation_items(g, ac):
@@ -1479,6 +1612,330 @@ def flatten_order_items(g, po, ac, co, dm):
     fact3(g, 'backpropsFlattenInCOrder', 'prysm/polynomials/__init__.py + x/optym + x/dm.py', None, check)
 
 
+# ------------------------------------------------------------------------------------------------
+# fourier_resample (fttools) / fourier_resample_backprop (x/dm): ordered operation chains, roll amounts, scale factors
+# ------------------------------------------------------------------------------------------------
+def resample_items(g, ft, dm):
+    PARK = '{K : Type} [Num K]'
+    SHIFT = {'fftshift': '(n / 2)', 'ifftshift': '(n - n / 2)'}
+    FB = ('def resampleFwdChain : List String := ["ifftshift", "fft2", "fftshift", "idft2", "real", "scale"]\n'
+          'def resampleBackChain : List String := ["idft2_backprop", "ifftshift", "ifft2", "fftshift", "real", "scale"]\n'
+          'def resampleFwdPre (n : Nat) : Nat := (n - n / 2)\ndef resampleFwdPost (n : Nat) : Nat := (n / 2)\n'
+          'def resampleBackPre (n : Nat) : Nat := (n - n / 2)\ndef resampleBackPost (n : Nat) : Nat := (n / 2)\n'
+          f'def resampleFwdScale {PARK} (sqrtf : K → K) (zy zx m n mm nn : K) : K := ((zy * zx) / (sqrtf (m * n)))\n'
+          f'def resampleBackScale {PARK} (sqrtf : K → K) (zy zx m n mm nn : K) : K := ((zy * zx) * (sqrtf (m * n)))\n'
+          'def resampleSameGeometry : Bool := true\n')
+
+    def chain_of(fn, inp, shape_src):
+        """symbolic run of the reachable straight-line part: returns (chain, scale expression nodes, mdft call node, prologue text)"""
+        env = {inp: []}
+        scales, mcall, prologue = [], [], []
+        dims = None
+        MD = ('idft2', 'idft2_backprop', 'dft2', 'dft2_backprop')
+
+        def sized(node):
+            """`<array>.size` of a running array -> a marker saying whether that array still has the extents of the routine's input
+            or already those of the matrix-DFT result (names are re-bound along the chain: `fbar` is m x n after the inverse FFT)"""
+            import copy
+
+            class S(ast.NodeTransformer):
+                def visit_Attribute(self, n):
+                    if n.attr == 'size' and isinstance(n.value, ast.Name) and n.value.id in env:
+                        side = 'res' if any(t in MD for t in env[n.value.id]) else 'inp'
+                        return ast.copy_location(ast.Name(id=f'size_{side}_', ctx=ast.Load()), n)
+                    return self.generic_visit(n)
+            return ast.fix_missing_locations(S().visit(copy.deepcopy(node)))
+
+        def ev(e):
+            if isinstance(e, ast.Name) and e.id in env:
+                return list(env[e.id])
+            if isinstance(e, ast.Attribute) and e.attr == 'real':
+                return ev(e.value) + ['real']
+            if isinstance(e, ast.Call):
+                f = ast.unparse(e.func)
+                if f in ('np.real',) and len(e.args) == 1 and not e.keywords:
+                    return ev(e.args[0]) + ['real']
+                base = f.split('.')[-1]
+                if f in ('fft.fftshift', 'fft.ifftshift', 'fft.fft2', 'fft.ifft2', 'np.fft.fftshift', 'np.fft.ifftshift',
+                         'np.fft.fft2', 'np.fft.ifft2'):
+                    if len(e.args) != 1 or e.keywords:
+                        raise Untranslatable(f'{f} with extra arguments')
+                    return ev(e.args[0]) + [base]
+                if f in ('mdft.idft2', 'mdft.idft2_backprop', 'mdft.dft2', 'mdft.dft2_backprop'):
+                    mcall.append(e)
+                    return ev(e.args[0]) + [base]
+                if isinstance(e.func, ast.Attribute) and e.func.attr in ('copy',) and not e.args:
+                    return ev(e.func.value)
+            raise Untranslatable(f'unrecognised operation on the data: {ast.unparse(e)[:70]}')
+
+        for st in fn.body:
+            if isinstance(st, ast.Expr) and isinstance(st.value, ast.Constant):
+                continue
+            if isinstance(st, ast.If):
+                prologue.append(ast.unparse(st))
+                continue
+            if isinstance(st, ast.Assign) and len(st.targets) == 1:
+                tgt, val = st.targets[0], st.value
+                if isinstance(tgt, ast.Tuple) and ast.unparse(val) == shape_src and len(tgt.elts) == 2:
+                    dims = tuple(ast.unparse(x) for x in tgt.elts)
+                    continue
+                if isinstance(tgt, ast.Name):
+                    try:
+                        env[tgt.id] = ev(val)
+                        continue
+                    except Untranslatable:
+                        if any(isinstance(n, ast.Name) and n.id in env for n in ast.walk(val)):
+                            if isinstance(val, ast.BinOp) and isinstance(val.op, (ast.Mult, ast.Div)):
+                                l_in = isinstance(val.left, ast.Name) and val.left.id in env
+                                r_in = isinstance(val.right, ast.Name) and val.right.id in env
+                                if l_in and not any(isinstance(n, ast.Name) and n.id in env for n in ast.walk(val.right)):
+                                    sc = val.right if isinstance(val.op, ast.Mult) else ast.BinOp(ast.Constant(1), ast.Div(), val.right)
+                                    env[tgt.id] = env[val.left.id] + ['scale']
+                                    scales.append(sized(sc))
+                                    continue
+                                if r_in and isinstance(val.op, ast.Mult) and not any(isinstance(n, ast.Name) and n.id in env for n in ast.walk(val.left)):
+                                    env[tgt.id] = env[val.right.id] + ['scale']
+                                    scales.append(sized(val.left))
+                                    continue
+                            raise
+                        prologue.append(ast.unparse(st))      # a scalar local (M, N, ...)
+                        continue
+            if isinstance(st, ast.AugAssign) and isinstance(st.target, ast.Name) and st.target.id in env:
+                if isinstance(st.op, ast.Mult):
+                    env[st.target.id] = env[st.target.id] + ['scale']
+                    scales.append(sized(st.value))
+                    continue
+                if isinstance(st.op, ast.Div):
+                    env[st.target.id] = env[st.target.id] + ['scale']
+                    scales.append(sized(ast.BinOp(ast.Constant(1), ast.Div(), st.value)))
+                    continue
+                raise Untranslatable(f'unrecognised operation on the data: {ast.unparse(st)[:70]}')
+            if isinstance(st, ast.Return):
+                return ev(st.value), scales, mcall, prologue, dims      # everything after the first top-level return is unreachable
+            raise Untranslatable(f'statement {ast.unparse(st)[:70]}')
+        raise Untranslatable('no return')
+
+    def build():
+        ff = get_def(ft, 'fourier_resample')
+        fb = get_def(dm, 'fourier_resample_backprop')
+        fc, fs, fm, fp, fd = chain_of(ff, 'f', 'f.shape')
+        bc, bs, bm, bp, bd = chain_of(fb, 'fbar', 'in_shape')
+        if fd is None or bd is None:
+            raise Untranslatable('array extents not bound from f.shape / in_shape')
+        lin = lambda c: [x for x in c if x not in ('real', 'scale')]
+        lf, lb = lin(fc), lin(bc)
+        if not (len(lf) == 4 and lf[0] in SHIFT and lf[1] == 'fft2' and lf[2] in SHIFT and len(fm) == 1):
+            raise Untranslatable(f'forward chain {fc}')
+        if not (len(lb) == 4 and lb[1] in SHIFT and lb[2] == 'ifft2' and lb[3] in SHIFT and len(bm) == 1):
+            raise Untranslatable(f'backprop chain {bc}')
+        if len(fs) != 1 or len(bs) != 1:
+            raise Untranslatable('not exactly one scale factor on each side')
+        fmt = lambda l: '[' + ', '.join(f'"{x}"' for x in l) + ']'
+        # scale factors: m, n are the extents of the resampled array, mm, nn those of the result of the forward
+        def scale(node, dims, size_env):
+            envs = {'zoom[0]': 'zy', 'zoom[1]': 'zx', dims[0]: 'm', dims[1]: 'n'}
+            envs.update(size_env)
+            return Tr(envs, mode='num', funcs={'np.sqrt': 'sqrtf', 'truenp.sqrt': 'sqrtf', 'math.sqrt': 'sqrtf'}).expr(node)
+        sf = scale(fs[0], fd, {'size_inp_': '(m * n)', 'size_res_': '(mm * nn)', 'M': 'mm', 'N': 'nn'})
+        sb = scale(bs[0], bd, {'size_inp_': '(mm * nn)', 'size_res_': '(m * n)'})
+        # geometry: same prologue (identity at zoom == 1 apart from the name, zoom normalisation), the matrix DFT is asked for
+        # (zoom, (int(m zoom_y), int(n zoom_x))) forward and (zoom, in_shape) backward, neither passes a shift
+        fcall, bcall = fm[0], bm[0]
+        fa = [ast.unparse(a) for a in fcall.args[1:]] + [f'{k.arg}={ast.unparse(k.value)}' for k in fcall.keywords]
+        ba = [ast.unparse(a) for a in bcall.args[1:]] + [f'{k.arg}={ast.unparse(k.value)}' for k in bcall.keywords]
+        norm = lambda t: t.replace(' ', '')
+        MN = {norm(x) for x in fp}
+        geo = (norm(' '.join(fa)) in ('zoom(M,N)',) and f'M=int({fd[0]}*zoom[0])' in MN and f'N=int({fd[1]}*zoom[1])' in MN
+               and norm(' '.join(ba)) in (f'zoom({bd[0]},{bd[1]})', 'zoomin_shape')
+               and [norm(x).replace('returnfbar', 'returnf') for x in bp if x.startswith('if')]
+               == [norm(x) for x in fp if x.startswith('if')])
+        return (f'def resampleFwdChain : List String := {fmt(fc)}\n'
+                f'def resampleBackChain : List String := {fmt(bc)}\n'
+                f'def resampleFwdPre (n : Nat) : Nat := {SHIFT[lf[0]]}\ndef resampleFwdPost (n : Nat) : Nat := {SHIFT[lf[2]]}\n'
+                f'def resampleBackPre (n : Nat) : Nat := {SHIFT[lb[1]]}\ndef resampleBackPost (n : Nat) : Nat := {SHIFT[lb[3]]}\n'
+                f'def resampleFwdScale {PARK} (sqrtf : K → K) (zy zx m n mm nn : K) : K := {sf}\n'
+                f'def resampleBackScale {PARK} (sqrtf : K → K) (zy zx m n mm nn : K) : K := {sb}\n'
+                f'def resampleSameGeometry : Bool := {"true" if geo else "false"}\n')
+    g.item('fourier_resample_backprop', 'prysm/x/dm.py:fourier_resample_backprop',
+           lambda: [get_def(ft, 'fourier_resample'), get_def(dm, 'fourier_resample_backprop')], build, FB)
+
+
+# ------------------------------------------------------------------------------------------------
+# session 3b: Wavefront-level *_backprop methods -> function-level routines (argument roles, returned labels), and the
+# live-attribute obligation over EVERY forward / backprop method pair of the anchor modules (discovered, not listed)
+# ------------------------------------------------------------------------------------------------
+def wrapper_items(g, pr):
+    def bound(method, callee):
+        fn = get_def(pr, f'Wavefront.{method}')
+        calls = find_calls(fn, callee)
+        if len(calls) != 1:
+            raise Untranslatable(f'Wavefront.{method}: {len(calls)} calls of {callee}')
+        c = calls[0]
+        params = [a.arg for a in get_def(pr, callee).args.args]
+        if len(c.args) > len(params):
+            raise Untranslatable('too many positional arguments')
+        b = {params[k]: a for k, a in enumerate(c.args)}
+        for k in c.keywords:
+            if k.arg is None or k.arg in b or k.arg not in params:
+                raise Untranslatable(f'keyword {k.arg}')
+            b[k.arg] = k.value
+        return fn, b
+
+    def nums(b, names, env):
+        out = []
+        for nm in names:
+            if nm not in b:
+                raise Untranslatable(f'argument {nm} not passed')
+            out.append(Tr(env, mode='rat').expr(b[nm]))
+        return '[' + ', '.join(out) + ']'
+
+    def tags(b, names):
+        return '[' + ', '.join('"' + (ast.unparse(b[nm]) if nm in b else '<default>') + '"' for nm in names) + ']'
+
+    def ret_wavefront(fn, env):
+        """(dx term, space text) of the Wavefront returned by the last plain `return Wavefront(...)`"""
+        rets = [r for r in find_returns(fn) if isinstance(r, ast.Call) and ast.unparse(r.func) == 'Wavefront']
+        if not rets:
+            raise Untranslatable('no return Wavefront(...)')
+        r = rets[-1]
+        sig = ['cmplx_field', 'wavelength', 'dx', 'space']
+        b = {sig[k]: a for k, a in enumerate(r.args)}
+        b.update({k.arg: k.value for k in r.keywords})
+        return Tr(env, mode='rat').expr(b['dx']), ast.unparse(b['space'])
+
+    PQ = '(p q efl wl : Rat)'
+
+    def ffs():
+        ff, fb_ = bound('focus_fixed_sampling', 'focus_fixed_sampling')
+        bf, bb = bound('focus_fixed_sampling_backprop', 'focus_fixed_sampling_backprop')
+        # forward: called on the pupil wavefront (self.dx = p) with dx = q;  backprop: called on the psf-plane gradient
+        # (self.dx = q) with dx = p (the pupil sampling)
+        ef = {'self.dx': 'p', 'dx': 'q', 'efl': 'efl', 'self.wavelength': 'wl'}
+        eb = {'self.dx': 'q', 'dx': 'p', 'efl': 'efl', 'self.wavelength': 'wl'}
+        N = ['input_dx', 'prop_dist', 'wavelength', 'output_dx']
+        T = ['wavefunction', 'output_samples', 'shift', 'method']
+        dxr, sp = ret_wavefront(bf, eb)
+        return (f'def wfFfsFwdNum {PQ} : List Rat := {nums(fb_, N, ef)}\n'
+                f'def wfFfsBackNum {PQ} : List Rat := {nums(bb, N, eb)}\n'
+                f'def wfFfsFwdPass : List String := {tags(fb_, T)}\n'
+                f'def wfFfsBackPass : List String := {tags(bb, T)}\n'
+                f'def wfFfsBackRetDx {PQ} : Rat := {dxr}\n'
+                f'def wfFfsBackRetSpace : String := {json_str(sp)}\n')
+    g.item('Wavefront.focus_fixed_sampling_backprop', 'prysm/propagation.py:Wavefront.focus_fixed_sampling_backprop',
+           lambda: [get_def(pr, 'Wavefront.focus_fixed_sampling'), get_def(pr, 'Wavefront.focus_fixed_sampling_backprop')], ffs,
+           f'def wfFfsFwdNum {PQ} : List Rat := [p, efl, wl, q]\ndef wfFfsBackNum {PQ} : List Rat := [p, efl, wl, q]\n'
+           'def wfFfsFwdPass : List String := ["self.data", "samples", "shift", "method"]\n'
+           'def wfFfsBackPass : List String := ["self.data", "samples", "shift", "method"]\n'
+           f'def wfFfsBackRetDx {PQ} : Rat := p\ndef wfFfsBackRetSpace : String := "\'pupil\'"\n')
+
+    PF = '(p fdx efl wl : Rat)'
+
+    def fpm():
+        ff, fb_ = bound('to_fpm_and_back', 'to_fpm_and_back')
+        bf, bb = bound('to_fpm_and_back_backprop', 'to_fpm_and_back_backprop')
+        e = {'self.dx': 'p', 'fpm_dx': 'fdx', 'efl': 'efl', 'self.wavelength': 'wl'}
+        N = ['dx', 'wavelength', 'efl', 'fpm_dx']
+        T = ['wavefunction', 'fpm', 'method', 'shift', 'return_more']
+
+        def more(fn):
+            """return_more branch: the names the tuple is unpacked into, the names returned, the dx each is labelled with"""
+            unpack = ret = None
+            label = {}
+            for n in ast.walk(fn):
+                if isinstance(n, ast.Assign) and isinstance(n.targets[0], ast.Tuple) and ast.unparse(n.value) == 'pak':
+                    unpack = [ast.unparse(x) for x in n.targets[0].elts]
+                if isinstance(n, ast.Assign) and isinstance(n.targets[0], ast.Name) and isinstance(n.value, ast.Call) \
+                        and ast.unparse(n.value.func) == 'Wavefront' and len(n.value.args) >= 3 \
+                        and ast.unparse(n.value.args[0]) == n.targets[0].id:
+                    label[n.targets[0].id] = Tr(e, mode='rat').expr(n.value.args[2])
+                if isinstance(n, ast.Return) and isinstance(n.value, ast.Tuple):
+                    ret = [ast.unparse(x) for x in n.value.elts]
+            if unpack is None or ret is None or set(unpack) != set(ret) or any(x not in label for x in ret):
+                raise Untranslatable('return_more branch not in the recognised shape')
+            return [unpack.index(x) for x in ret], [label[x] for x in ret]
+        po, pl = more(bf)
+        dxr, sp = ret_wavefront(bf, e)
+        return (f'def wfFpmFwdNum {PF} : List Rat := {nums(fb_, N, e)}\n'
+                f'def wfFpmBackNum {PF} : List Rat := {nums(bb, N, e)}\n'
+                f'def wfFpmFwdPass : List String := {tags(fb_, T)}\n'
+                f'def wfFpmBackPass : List String := {tags(bb, T)}\n'
+                f'def wfFpmBackMoreOrder : List Nat := [{", ".join(map(str, po))}]\n'
+                f'def wfFpmBackMoreDx {PF} : List Rat := [{", ".join(pl)}]\n'
+                f'def wfFpmBackRetDx {PF} : Rat := {dxr}\n')
+    g.item('Wavefront.to_fpm_and_back_backprop', 'prysm/propagation.py:Wavefront.to_fpm_and_back_backprop',
+           lambda: [get_def(pr, 'Wavefront.to_fpm_and_back'), get_def(pr, 'Wavefront.to_fpm_and_back_backprop')], fpm,
+           f'def wfFpmFwdNum {PF} : List Rat := [p, wl, efl, fdx]\ndef wfFpmBackNum {PF} : List Rat := [p, wl, efl, fdx]\n'
+           'def wfFpmFwdPass : List String := ["self.data", "fpm", "method", "shift", "return_more"]\n'
+           'def wfFpmBackPass : List String := ["self.data", "fpm", "method", "shift", "return_more"]\n'
+           f'def wfFpmBackMoreOrder : List Nat := [0, 1, 2]\ndef wfFpmBackMoreDx {PF} : List Rat := [p, fdx, fdx]\n'
+           f'def wfFpmBackRetDx {PF} : Rat := p\n')
+
+
+def json_str(t):
+    return '"' + t.replace('\\', '\\\\').replace('"', '\\"') + '"'
+
+
+def live_general_item(g, repo):
+    """EVERY class of the anchor modules with a forward / backprop method pair (`forward*`/`backprop*`, `X`/`X_backprop`):
+    each `self.attr` the backprop reads is read or written by its forward (directly or through a helper method of the class), is a
+    method / property, or is on the short allow list.  The pairs are discovered from the source, so a new node is covered as it appears."""
+    MODS = ['prysm/x/optym/activation.py', 'prysm/x/optym/operators.py', 'prysm/x/optym/cost.py', 'prysm/x/dm.py',
+            'prysm/propagation.py', 'prysm/fttools.py', 'prysm/polynomials/__init__.py']
+    ALLOW = {('DM', 'invprojx'), ('DM', 'invprojy'), ('DM', 'ifn'),          # rotation coordinates (out of scope), shape only
+             ('MatrixDFTExecutor', 'Ein'), ('MatrixDFTExecutor', 'Eout'),    # the basis cache, filled under the same key by both
+             ('Wavefront', 'space'), ('Wavefront', 'dx'), ('Wavefront', 'wavelength')}   # primary public labels copied onto the returned container
+
+    def attrs(fn, ctx_type):
+        return {n.attr for n in ast.walk(fn) if isinstance(n, ast.Attribute) and isinstance(n.value, ast.Name)
+                and n.value.id == 'self' and isinstance(n.ctx, ctx_type)}
+
+    def build():
+        pairs, stale, hooked = [], [], []
+        for rel in MODS:
+            mod, _ = load(repo, rel)
+            for c in mod.body:
+                if not isinstance(c, ast.ClassDef):
+                    continue
+                meth = {n.name: n for n in c.body if isinstance(n, ast.FunctionDef)}
+                for bname, b in meth.items():
+                    if 'backprop' not in bname:
+                        continue
+                    cands = [bname.replace('backprop', 'forward'), bname.replace('_backprop', ''), bname.replace('backprop_', 'forward_')]
+                    if bname.startswith('from_amp_and_phase_backprop'):
+                        cands.append('from_amp_and_phase')
+                    fname = next((x for x in cands if x in meth and x != bname), None)
+                    if fname is None:
+                        stale.append(f'{c.name}.{bname}: no forward counterpart found')
+                        continue
+                    if '__setattr__' in meth or '__getattr__' in meth:
+                        hooked.append(f'{c.name}.{fname}/{bname}')
+                        continue
+                    f = meth[fname]
+                    live = attrs(f, ast.Load) | attrs(f, ast.Store) | set(meth)
+                    seen, todo = set(), [f]
+                    while todo:                       # helper methods of the class called (transitively) by the forward
+                        h = todo.pop()
+                        for n in ast.walk(h):
+                            if isinstance(n, ast.Call) and isinstance(n.func, ast.Attribute) and isinstance(n.func.value, ast.Name) \
+                                    and n.func.value.id == 'self' and n.func.attr in meth and n.func.attr not in seen:
+                                seen.add(n.func.attr)
+                                live |= attrs(meth[n.func.attr], ast.Load) | attrs(meth[n.func.attr], ast.Store)
+                                todo.append(meth[n.func.attr])
+                    if any(isinstance(d, ast.Name) and d.id == 'classmethod' for d in f.decorator_list):
+                        live |= {'wavelength', 'data', 'dx', 'space'} if c.name == 'Wavefront' else set()   # a constructor: its product's fields
+                    pairs.append(f'{c.name}.{fname}/{bname}')
+                    for a in sorted(attrs(b, ast.Load) - live):
+                        if (c.name, a) not in ALLOW:
+                            stale.append(f'{c.name}.{bname} reads self.{a}')
+        fmt = lambda l: '[' + ', '.join(json_str(x) for x in l) + ']'
+        return (f'def liveAttributePairs : List String := {fmt(sorted(pairs))}\n'
+                f'def backpropStaleReads : List String := {fmt(sorted(stale))}\n'
+                f'def liveAttributeHooked : List String := {fmt(sorted(hooked))}\n')
+    g.item('backprop.live_attributes_all', 'prysm/x/optym/activation.py + operators.py + x/dm.py + propagation.py + fttools.py',
+           lambda: [load(repo, rel)[0] for rel in MODS], build,
+           'def liveAttributePairs : List String := []\ndef backpropStaleReads : List String := []\ndef liveAttributeHooked : List String := []\n')
+
+
 def generate(repo):
     g = Gen('C06', imports=['PrysmVerif.PyPrelude', 'PrysmVerif.Model.C06'],
             header='set_option linter.unusedVariables false')
@@ -1498,9 +1955,12 @@ def generate(repo):
     dm, _ = load(repo, 'prysm/x/dm.py')
     structural_items(g, ft, po, dm)
     mdft_term_items(g, ft)
+    resample_items(g, ft, dm)
     padcrop_items(g, repo)
     live_attribute_items(g, ac, dm)
     flatten_order_items(g, po, ac, co, dm)
+    wrapper_items(g, pr)
+    live_general_item(g, repo)
     return g.finish()
 
 
